@@ -5,7 +5,6 @@ package supervisor
 
 import (
 	"context"
-	"errors"
 	"fmt"
 	"os/exec"
 	"runtime"
@@ -19,6 +18,9 @@ import (
 
 // typecheck interface compliance
 var _ model.SupervisorClient = (*LocalSupervisor)(nil)
+
+// how long Wait lets the output of an exited process drain before it closes the pipes (os/exec WaitDelay)
+const outputDrainWait = 1 * time.Second
 
 type process struct {
 	// pid of the running process
@@ -80,6 +82,9 @@ func (s *LocalSupervisor) Exec(ctx context.Context, req *model.ExecRequest) erro
 	command.Stderr = req.StderrWriter
 
 	command.SysProcAttr = &syscall.SysProcAttr{Setpgid: true}
+	// for writers that are not files, Wait also waits for the copy of the output to end, i.e. for everyone
+	// who inherited the pipe (a forked child, a daemon): bound that, the termination event is about the process
+	command.WaitDelay = outputDrainWait
 
 	err := command.Start()
 
@@ -109,12 +114,11 @@ func (s *LocalSupervisor) Exec(ctx context.Context, req *model.ExecRequest) erro
 		var cell int32
 		var exitStatus *int32
 		var signo *int32
-		var exitErr *exec.ExitError
 
-		if err == nil {
-			exitStatus = &cell
-		} else if errors.As(err, &exitErr) {
-			if status, ok := exitErr.Sys().(syscall.WaitStatus); ok {
+		// the process state, not the error of Wait, tells how the process ended: the error may come
+		// from the copy of its output (or from the bound on it) although the process exited normally
+		if state := command.ProcessState; state != nil {
+			if status, ok := state.Sys().(syscall.WaitStatus); ok {
 				if code := status.ExitStatus(); code >= 0 {
 					cell = int32(code)
 					exitStatus = &cell
@@ -123,6 +127,8 @@ func (s *LocalSupervisor) Exec(ctx context.Context, req *model.ExecRequest) erro
 					signo = &cell
 				}
 			}
+		} else if err == nil {
+			exitStatus = &cell
 		}
 
 		if signo == nil && exitStatus == nil {
